@@ -8,7 +8,7 @@
    vFloat / vGeo are not modelled (implementation-level oracle only, see tools/harness/c03.py). *)
 Require Import Lib.Base Model.Params Model.CodecBase Model.CodecDate Model.CodecDur Model.CodecMisc Gen.Gen_prop.
 Require Import Proofs.CodecBaseProofs Proofs.CodecDateProofs Proofs.CodecDurProofs Proofs.CodecMiscProofs
-        Proofs.CodecDddProofs Proofs.CodecB64Proofs.
+        Proofs.CodecDddProofs Proofs.CodecB64Proofs Proofs.CodecGrammarProofs.
 From Coq Require Import ZArith List Bool.
 Local Open Scope Z_scope.
 
@@ -210,6 +210,80 @@ Theorem C03_ddd_dispatch_dur : forall t v, dur_value t = Some v -> ddd_from_ical
 Proof. exact ddd_dispatch_dur. Qed.
 Print Assumptions C03_ddd_dispatch_dur.
 
+Theorem C03_ddd_dispatch_period : forall t v, period_value t = Some v -> ddd_from_ical t = dec_period t.
+Proof. exact ddd_dispatch_period. Qed.
+Print Assumptions C03_ddd_dispatch_period.
+
+(* The dispatcher as a whole, against the grammars.  ddd_readings t lists every reading of t as DATE, DATE-TIME,
+   TIME, DURATION, PERIOD; the five grammars are pairwise disjoint, so "in exactly one" = "in one": *)
+Theorem C03_ddd_grammars_disjoint : forall t,
+  (List.length (ddd_readings t) <= 1)%nat /\ (forall v, ddd_value t = Some v <-> In v (ddd_readings t)).
+Proof. exact ddd_disjoint_reading. Qed.
+Print Assumptions C03_ddd_grammars_disjoint.
+
+(* for every text in one of the five grammars vDDDTypes.from_ical returns that grammar's value, on the guard
+   [ddd_guard]: no second 60 (C03-F1), no UTC TIME (C03-F2), durations inside timedelta's range (C03-F4)
+   -- dates and date-times carry no other condition; at most 4300 characters (int() digit limit) ... *)
+Theorem C03_ddd_grammar_value : forall t v, ddd_value t = Some v ->
+  ddd_guard v && (List.length t <=? 4300)%nat = true -> ddd_from_ical t = Ok v.
+Proof. exact ddd_grammar_dec. Qed.
+Print Assumptions C03_ddd_grammar_value.
+
+(* ... what it returns on every such text, guard or not; and the guard is exact: outside it the RFC value
+   is never returned *)
+Theorem C03_ddd_grammar_value_full : forall t v, ddd_value t = Some v -> (List.length t <= 4300)%nat ->
+  ddd_from_ical t = ddd_expected v /\ (ddd_from_ical t = Ok v <-> ddd_guard v = true).
+Proof. exact ddd_grammar_dec_full'. Qed.
+Print Assumptions C03_ddd_grammar_value_full.
+
+(* PERIOD = date-time "/" date-time  or  date-time "/" dur-value.  period_value t = Some (DPeriod (DDatetime a) e),
+   e = DDatetime b or DDur s, is the RFC reading of a whole text (Model/CodecDur.v).  Guard [ddd_guard]: no
+   second 60 in either date-time (C03-F1) and the duration inside timedelta's range (C03-F4); the length bound is
+   CPython's int() digit limit.  Both entry points: vPeriod.from_ical and vDDDTypes.from_ical. *)
+Theorem C03_period_grammar_value : forall t v, period_value t = Some v ->
+  ddd_guard v && (List.length t <=? 4300)%nat = true ->
+  dec_period t = Ok v /\ ddd_from_ical t = Ok v.
+Proof. exact period_grammar_dec. Qed.
+Print Assumptions C03_period_grammar_value.
+
+(* ... and what the two entry points return for every RFC period text, guard or not: [ddd_expected v] is
+   ValueError as soon as one part is a leap-second date-time or an over-range duration (inside a period the
+   OverflowError of C03-F4 is converted), else the value *)
+Theorem C03_period_grammar_value_full : forall t v, period_value t = Some v -> (List.length t <= 4300)%nat ->
+  dec_period t = ddd_expected v /\ ddd_from_ical t = ddd_expected v.
+Proof. exact period_grammar_dec_full'. Qed.
+Print Assumptions C03_period_grammar_value_full.
+
+(* weekdaynum = [[plus / minus] ordwk] weekday, in any letter case: no guard.  The str returned is the
+   upper-cased text, .relative the signed ordinal (None without one), .weekday the two letters *)
+Theorem C03_weekday_grammar_value : forall t rel wd, weekday_value t = Some (rel, wd) ->
+  dec_weekday t = Ok (upper t, rel, wd).
+Proof. exact weekday_grammar_dec. Qed.
+Print Assumptions C03_weekday_grammar_value.
+
+(* BINARY: binary_value is the RFC 4648 reading of a text (Some o iff the text is RFC 5545 "binary") ... *)
+Theorem C03_binary_value_grammar : forall t,
+  binary_grammar t = match binary_value t with Some _ => true | None => false end.
+Proof. exact binary_grammar_value. Qed.
+Print Assumptions C03_binary_value_grammar.
+
+(* ... every such text, canonical or not, decodes to the octets RFC 4648 assigns (no guard: the bits of the
+   last character that are not part of the value are ignored); re-encoding the result gives the canonical
+   text of the same octets, which is the text itself exactly when the text is canonical (those bits are zero) *)
+Theorem C03_binary_grammar_value : forall t o, binary_value t = Some o ->
+  dec_binary t = Ok o /\ Forall (fun x => (x < 256)%N) o
+  /\ binary_value (b64_enc o) = Some o /\ binary_canonical (b64_enc o) = true
+  /\ (b64_enc o = t <-> binary_canonical t = true).
+Proof. exact binary_grammar_dec'. Qed.
+Print Assumptions C03_binary_grammar_value.
+
+(* missing padding (not in the grammar; RFC 4648 3.2 allows it only where a specification says so): any run
+   of alphabet characters whose length is not a multiple of 4 is refused (binascii.Error, a ValueError) *)
+Theorem C03_binary_unpadded : forall t, forallb is_b64_chr t = true ->
+  (N.of_nat (List.length t) mod 4 <> 0)%N -> dec_binary t = ValueErr.
+Proof. exact binary_unpadded. Qed.
+Print Assumptions C03_binary_unpadded.
+
 (* ============================== refutations outside the guards (known findings) ============================== *)
 
 (* C03-F1: leap-second texts are in the grammar but are refused *)
@@ -245,6 +319,83 @@ Theorem C03_datetime_lowercase_refuted : exists t, datetime_grammar_ci t = true 
 Proof. exists (s2l "19970714T120000z"). vm_compute. split; reflexivity. Qed.
 Print Assumptions C03_datetime_lowercase_refuted.
 
+(* the same classes through vPeriod.from_ical and vDDDTypes.from_ical (every clause of ddd_guard has a witness) *)
+(* C03-F1 inside a period, either end *)
+Theorem C03_period_leap_second_refuted : exists t v, period_value t = Some v
+  /\ dec_period t = ValueErr /\ ddd_from_ical t = ValueErr.
+Proof.
+  exists (s2l "19970101T235960Z/PT1H"), (DPeriod (DDatetime (1997, 1, 1, 23, 59, 60, true)) (DDur 3600)).
+  vm_compute. repeat split; reflexivity.
+Qed.
+Print Assumptions C03_period_leap_second_refuted.
+
+Theorem C03_period_end_leap_second_refuted : exists t v, period_value t = Some v
+  /\ dec_period t = ValueErr /\ ddd_from_ical t = ValueErr.
+Proof.
+  exists (s2l "19970101T180000Z/19970102T235960Z"),
+         (DPeriod (DDatetime (1997, 1, 1, 18, 0, 0, true)) (DDatetime (1997, 1, 2, 23, 59, 60, true))).
+  vm_compute. repeat split; reflexivity.
+Qed.
+Print Assumptions C03_period_end_leap_second_refuted.
+
+(* C03-F4 inside a period: refused (the OverflowError is converted to ValueError there) *)
+Theorem C03_period_overflow_refuted : exists t v, period_value t = Some v
+  /\ dec_period t = ValueErr /\ ddd_from_ical t = ValueErr.
+Proof.
+  exists (s2l "19970101T180000Z/P1000000000D"), (DPeriod (DDatetime (1997, 1, 1, 18, 0, 0, true)) (DDur (1000000000 * 86400))).
+  vm_compute. repeat split; reflexivity.
+Qed.
+Print Assumptions C03_period_overflow_refuted.
+
+(* C03-F5 inside a period *)
+Theorem C03_period_lowercase_refuted : exists t, period_grammar_ci t = true
+  /\ dec_period t = ValueErr /\ ddd_from_ical t = ValueErr.
+Proof. exists (s2l "19970101T180000Z/pt5h"). vm_compute. repeat split; reflexivity. Qed.
+Print Assumptions C03_period_lowercase_refuted.
+
+(* the dispatcher: C03-F1 (TIME and DATE-TIME texts), C03-F2, C03-F4 (here the OverflowError escapes), C03-F5 *)
+Theorem C03_ddd_leap_second_refuted :
+  (exists t v, ddd_value t = Some v /\ time_value t <> None /\ ddd_from_ical t = ValueErr)
+  /\ (exists t v, ddd_value t = Some v /\ datetime_value t <> None /\ ddd_from_ical t = ValueErr).
+Proof.
+  split.
+  - exists (s2l "235960"), (DTime 23 59 60 false). vm_compute. repeat split; try reflexivity. discriminate.
+  - exists (s2l "19970714T235960Z"), (DDatetime (1997, 7, 14, 23, 59, 60, true)). vm_compute. repeat split; try reflexivity. discriminate.
+Qed.
+Print Assumptions C03_ddd_leap_second_refuted.
+
+Theorem C03_ddd_time_utc_refuted : exists t, ddd_value t = Some (DTime 12 0 0 true)
+  /\ ddd_from_ical t = Ok (DTime 12 0 0 false).
+Proof. exists (s2l "120000Z"). vm_compute. split; reflexivity. Qed.
+Print Assumptions C03_ddd_time_utc_refuted.
+
+Theorem C03_ddd_dur_overflow_refuted : exists t v, ddd_value t = Some v /\ ddd_from_ical t = Escape s_overflow.
+Proof. exists (s2l "P1000000000D"), (DDur (1000000000 * 86400)). vm_compute. split; reflexivity. Qed.
+Print Assumptions C03_ddd_dur_overflow_refuted.
+
+Theorem C03_ddd_lowercase_refuted :
+  (exists t, ddd_grammar_ci t = true /\ ddd_from_ical t = ValueErr)
+  /\ (exists t, ddd_grammar_ci t = true /\ ddd_from_ical t = ValueErr /\ mem_chr 84 (upper t) = true /\ mem_chr 80 (upper t) = false).
+Proof.
+  split.
+  - exists (s2l "p1d"). vm_compute. split; reflexivity.
+  - exists (s2l "19970714T120000z"). vm_compute. repeat split; reflexivity.
+Qed.
+Print Assumptions C03_ddd_lowercase_refuted.
+
+(* the length bound: a grammar-valid duration of 4303 characters (leading zeros) denoting one day is refused *)
+Theorem C03_dur_digit_limit_refuted : dur_value long_zero_dur = Some 86400 /\ td_ok 86400 = true
+  /\ List.length long_zero_dur = 4303%nat /\ dec_dur long_zero_dur = ValueErr /\ ddd_from_ical long_zero_dur = ValueErr.
+Proof. exact dur_digit_limit. Qed.
+Print Assumptions C03_dur_digit_limit_refuted.
+
+(* BINARY: a non-canonical text ("QR==": the 4 unused bits of R are 0001) is accepted and read as "QQ==" is;
+   missing padding is refused; what follows a complete padding is ignored (outside the grammar) *)
+Theorem C03_binary_noncanonical_accepted : exists t, binary_value t = Some [65%N] /\ binary_canonical t = false
+  /\ dec_binary t = Ok [65%N] /\ b64_enc [65%N] <> t /\ b64_enc [65%N] = s2l "QQ==".
+Proof. exists (s2l "QR=="). vm_compute. repeat split; try reflexivity. discriminate. Qed.
+Print Assumptions C03_binary_noncanonical_accepted.
+
 (* ============================== non-vacuity ============================== *)
 Example C03_nonvacuous :
   valid_date 2000 2 29 = true /\ enc_date 2000 2 29 = Ok (s2l "20000229")
@@ -252,4 +403,21 @@ Example C03_nonvacuous :
   /\ enc_offset (-18030) = Ok (s2l "-050030") /\ enc_int (-2147483648) = Ok (s2l "-2147483648")
   /\ dur_value (s2l "P15DT5H0M20S") = Some 1314020 /\ dur_value (s2l "PT1H5S") = None
   /\ offset_value (s2l "-0000") = None.
+Proof. vm_compute. repeat split; reflexivity. Qed.
+
+Definition c03_period_ex := Eval vm_compute in
+  (period_value (s2l "19970101T180000Z/19970102T070000Z"), dec_period (s2l "19970101T180000Z/PT5H30M"),
+   ddd_from_ical (s2l "19970101T180000/P1W"), period_value (s2l "19970101/19970102"), period_value (s2l "19970101T180000Z/PT1H5S")).
+Example C03_grammar_nonvacuous :
+  c03_period_ex = (Some (DPeriod (DDatetime (1997, 1, 1, 18, 0, 0, true)) (DDatetime (1997, 1, 2, 7, 0, 0, true))),
+                   Ok (DPeriod (DDatetime (1997, 1, 1, 18, 0, 0, true)) (DDur 19800)),
+                   Ok (DPeriod (DDatetime (1997, 1, 1, 18, 0, 0, false)) (DDur 604800)), None, None)
+  /\ ddd_value (s2l "19970714") = Some (DDate 1997 7 14) /\ ddd_value (s2l "-P1DT2H") = Some (DDur (-93600))
+  /\ ddd_value (s2l "1997071") = None /\ ddd_readings (s2l "19970714T120000Z") = [DDatetime (1997, 7, 14, 12, 0, 0, true)]
+  /\ ddd_guard (DPeriod (DDatetime (1997, 1, 1, 18, 0, 0, true)) (DDur 19800)) = true
+  /\ weekday_value (s2l "-1su") = Some (Some (-1), s2l "SU") /\ dec_weekday (s2l "-1su") = Ok (s2l "-1SU", Some (-1), s2l "SU")
+  /\ weekday_value (s2l "+MO") = None /\ weekday_value (s2l "54MO") = None /\ weekday_value (s2l "00MO") = None
+  /\ binary_value (s2l "QUJDRA==") = Some [65; 66; 67; 68]%N /\ binary_canonical (s2l "QUJDRA==") = true
+  /\ b64_enc [65; 66; 67; 68]%N = s2l "QUJDRA==" /\ binary_value (s2l "QUJDRA") = None /\ dec_binary (s2l "QUJDRA") = ValueErr
+  /\ dec_binary (s2l "QQ==QQ==") = Ok [65%N] /\ binary_value (s2l "QQ==QQ==") = None.
 Proof. vm_compute. repeat split; reflexivity. Qed.
